@@ -426,6 +426,14 @@ func (s *scope) createInstance(descriptor *Descriptor) (any, error) {
 	// Get cached invoker (reduces allocations)
 	invoker := s.rootProvider.analyzer.GetInvoker()
 
+	// The analysis is cached per code pointer and signature, which closures, method
+	// values and reflect.MakeFunc functions share: always call the registered value.
+	if info.IsFunc {
+		call := *info
+		call.Value = descriptor.Constructor
+		info = &call
+	}
+
 	// Invoke constructor
 	results, err := invoker.Invoke(info, s)
 	if err != nil {
